@@ -762,3 +762,548 @@ Qed.
 
 Theorem partition_groups_concat : forall l, flat_map snd (partition_groups l) = l.
 Proof. intros l. unfold partition_groups, group_bounds. cbv zeta. apply cut_groups_concat. Qed.
+
+(* ====================================================================== *)
+(* 8a. facts that do not need the geometry                                 *)
+(* ====================================================================== *)
+(* a pair of type maps MPI accepts: lengths >= 0, same number of bytes on both sides *)
+Definition io_ok (t : iotypes) : Prop :=
+  Forall (fun b => 0 <= snd b) (io_f t) /\ Forall (fun b => 0 <= snd b) (io_b t) /\
+  length (blocks_bytes (io_f t)) = length (blocks_bytes (io_b t)).
+
+Lemma io_ok_zsum : forall t, io_ok t -> zsum (map snd (io_f t)) = zsum (map snd (io_b t)).
+Proof.
+  intros t (Hf & Hb & Hl). rewrite <- !Zlen_blocks_bytes by assumption. unfold Zlen. lia.
+Qed.
+
+Lemma mpi_write_pairs_ok : forall file mem t, io_ok t ->
+  disk_eq (mpi_write file mem t) (write_pairs file mem (io_pairs t)).
+Proof.
+  intros file mem t H. pose proof (io_ok_zsum t H) as Hz. destruct H as (Hf & Hb & _).
+  apply mpi_write_pairs; assumption.
+Qed.
+
+Lemma mpi_read_pairs_ok : forall file mem t, io_ok t ->
+  disk_eq (mpi_read file mem t) (read_pairs file mem (io_pairs t)).
+Proof.
+  intros file mem t H. pose proof (io_ok_zsum t H) as Hz. destruct H as (Hf & Hb & _).
+  apply mpi_read_pairs; assumption.
+Qed.
+
+Lemma blocks_bytes_flat_map : forall A (f : A -> blocks) l,
+  blocks_bytes (flat_map f l) = flat_map (fun x => blocks_bytes (f x)) l.
+Proof. intros. unfold blocks_bytes. apply flat_map_flat_map. Qed.
+
+(* MPI_Type_create_struct of a list of type-map pairs *)
+Lemma io_concat : forall ts, Forall io_ok ts ->
+  io_ok (mkio (flat_map io_f ts) (flat_map io_b ts)) /\
+  io_pairs (mkio (flat_map io_f ts) (flat_map io_b ts)) = flat_map io_pairs ts.
+Proof.
+  intros ts H.
+  assert (Hlen : forall t, In t ts -> length (blocks_bytes (io_f t)) = length (blocks_bytes (io_b t))).
+  { intros t Ht. apply (proj1 (Forall_forall _ _) H t Ht). }
+  split; [split; [|split]|]; cbn [io_f io_b].
+  - apply Forall_flat_map. eapply Forall_impl; [|exact H]. intros t Ht. apply Ht.
+  - apply Forall_flat_map. eapply Forall_impl; [|exact H]. intros t Ht. apply Ht.
+  - rewrite !blocks_bytes_flat_map. apply length_flat_map_eq. exact Hlen.
+  - unfold io_pairs at 1. cbn [io_f io_b]. rewrite !blocks_bytes_flat_map.
+    rewrite zip_flat_map by exact Hlen. reflexivity.
+Qed.
+
+Lemma perm_flat_map_pointwise : forall A B (f h : A -> list B) l,
+  Forall (fun x => Permutation (f x) (h x)) l -> Permutation (flat_map f l) (flat_map h l).
+Proof.
+  intros A B f h l H. induction H as [|x l Hx Hl IH]; cbn [flat_map].
+  - apply perm_nil.
+  - apply Permutation_app; assumption.
+Qed.
+
+(* type_create_off_len of a list of segments with positive lengths *)
+Lemma segs_views_pairs : forall segs, Forall (fun s => 0 < s_len s) segs ->
+  io_ok (mkio (segs_fview segs) (segs_bview segs)) /\
+  io_pairs (mkio (segs_fview segs) (segs_bview segs)) = segs_pairs segs.
+Proof.
+  intros segs Hpos.
+  assert (Hf : Forall (fun b : Z * Z => 0 <= snd b) (map (fun s => (s_off s, s_len s)) segs)).
+  { apply Forall_map. eapply Forall_impl; [|exact Hpos]. intros s Hs. cbv beta in Hs. cbn [snd]. lia. }
+  assert (Hb : Forall (fun b : Z * Z => 0 <= snd b) (map (fun s => (s_addr s, s_len s)) segs)).
+  { apply Forall_map. eapply Forall_impl; [|exact Hpos]. intros s Hs. cbv beta in Hs. cbn [snd]. lia. }
+  assert (Ef : blocks_bytes (segs_fview segs) = flat_map (fun s => zrange (s_off s) (s_len s)) segs).
+  { unfold segs_fview. rewrite coalesce_list_bytes by exact Hf.
+    unfold blocks_bytes. rewrite flat_map_map_comm. reflexivity. }
+  assert (Eb : blocks_bytes (segs_bview segs) = flat_map (fun s => zrange (s_addr s) (s_len s)) segs).
+  { unfold segs_bview. rewrite coalesce_list_bytes by exact Hb.
+    unfold blocks_bytes. rewrite flat_map_map_comm. reflexivity. }
+  assert (Hlen : forall s, In s segs ->
+            length (zrange (s_off s) (s_len s)) = length (zrange (s_addr s) (s_len s))).
+  { intros s _. rewrite !zrange_length. reflexivity. }
+  split; [split; [|split]|]; cbn [io_f io_b].
+  - unfold segs_fview. apply coalesce_list_nonneg. exact Hf.
+  - unfold segs_bview. apply coalesce_list_nonneg. exact Hb.
+  - rewrite Ef, Eb. apply length_flat_map_eq. exact Hlen.
+  - unfold io_pairs. cbn [io_f io_b]. rewrite Ef, Eb.
+    rewrite zip_flat_map by exact Hlen. reflexivity.
+Qed.
+
+Lemma offs_increasing_sorted : forall l, offs_increasing l = true ->
+  StronglySorted (fun a b => s_off a <= s_off b) l.
+Proof.
+  intros l H. apply Sorted_StronglySorted.
+  { intros x y z Hxy Hyz. lia. }
+  induction l as [|a l IH]; [constructor|].
+  destruct l as [|b r].
+  - constructor; constructor.
+  - cbn [offs_increasing] in H. apply andb_true_iff in H. destruct H as [H1 H2].
+    constructor; [apply IH; exact H2|]. constructor. lia.
+Qed.
+
+(* the selectors of an annotated request *)
+Lemma annotate_req : forall leads r, a_req (annotate leads r) = r.
+Proof. intros. unfold annotate. destruct (access_range _ r). reflexivity. Qed.
+
+Lemma annotate_lead : forall leads r, a_lead (annotate leads r) = znth leads (r_lead_off r) dummy_lead.
+Proof. intros. unfold annotate. destruct (access_range _ r). reflexivity. Qed.
+
+(* the number of bytes of the file type of a well-formed request *)
+Lemma ones_like_ones : forall l, ones_like l = ones (length l).
+Proof. induction l as [|x l IH]; [reflexivity|]. unfold ones_like, ones in *. cbn [map length repeat]. now rewrite IH. Qed.
+
+Lemma length_blocks_const : forall (k : Z) offs,
+  length (blocks_bytes (map (fun o => (o, k)) offs)) = (length offs * Z.to_nat k)%nat.
+Proof.
+  intros k offs. unfold blocks_bytes. rewrite flat_map_map_comm.
+  apply flat_map_length_const. intros a _. unfold expand. cbn [fst snd]. apply zrange_length.
+Qed.
+
+Lemma model_offsets_length_wf : forall a, areq_wf a ->
+  length (model_offsets (l_geom (a_lead a)) (r_start (a_req a)) (r_count (a_req a)) (l_stride (a_lead a)))
+  = Z.to_nat (r_nelems (a_req a)).
+Proof.
+  intros a (Hwf & Hfit & Hreq & Hne & Hpos & Hrec & Hst). rewrite Hne.
+  unfold req_stride in Hreq. destruct (l_stride (a_lead a)) as [t|].
+  - apply model_offsets_length; assumption.
+  - destruct (req_ok_lengths _ _ _ _ Hreq) as (Hls & _ & _).
+    rewrite ones_like_ones, Hls in Hreq.
+    rewrite model_offsets_eq_spec_none by assumption.
+    apply spec_offsets_length_req. exact Hreq.
+Qed.
+
+Lemma req_ftype_facts : forall a, areq_wf a ->
+  length (blocks_bytes (snd (req_ftype a))) = length (expand (req_bblock a)) /\
+  Forall (fun b => 0 <= snd b) (snd (req_ftype a)) /\ 0 <= snd (req_bblock a).
+Proof.
+  intros a H. pose proof (model_offsets_length_wf a H) as Hm.
+  destruct H as (Hwf & Hfit & Hreq & Hne & Hpos & Hrec & Hst).
+  destruct Hwf as (Hxsz & _).
+  unfold req_ftype, req_bblock, expand. cbn [fst snd].
+  destruct (ftype_contig (l_geom (a_lead a)) (r_count (a_req a)) (l_stride (a_lead a))); cbn [snd].
+  - split; [|split].
+    + rewrite blocks_bytes_single. cbn [fst snd]. rewrite !zrange_length. f_equal. lia.
+    + apply Forall_cons; [cbn [snd]; nia | constructor].
+    + nia.
+  - split; [|split].
+    + rewrite length_blocks_const, Hm, zrange_length. rewrite Z2Nat.inj_mul by lia. reflexivity.
+    + apply Forall_map. apply Forall_forall. intros o _. cbn [snd]. lia.
+    + nia.
+Qed.
+
+(* ---------- file-view facts (what MPI-IO requires of a file type map) ---------- *)
+(* every block ends before every later one begins *)
+Definition blocks_sep (b : blocks) : Prop := StronglySorted (fun p q => fst p + snd p <= fst q) b.
+
+Lemma segs_sep_blocks : forall segs, segs_sep segs ->
+  blocks_sep (map (fun s => (s_off s, s_len s)) segs).
+Proof.
+  intros segs H. induction H as [|s r HS IH HF]; cbn [map]; constructor; [exact IH|].
+  apply Forall_map. eapply Forall_impl; [|exact HF]. intros x Hx. cbn [fst snd]. exact Hx.
+Qed.
+
+Lemma coalesce_sep_facts : forall rest cur,
+  blocks_sep (cur :: rest) -> Forall (fun b => 0 <= snd b) (cur :: rest) ->
+  blocks_sep (coalesce cur rest) /\ Forall (fun x => fst cur <= fst x) (coalesce cur rest).
+Proof.
+  induction rest as [|[o l] r IH]; intros cur HS HN.
+  - cbn [coalesce]. split; [exact HS|]. apply Forall_cons; [lia | constructor].
+  - apply StronglySorted_inv in HS. destruct HS as [HSr HSc].
+    apply Forall_cons_iff in HSc. destruct HSc as [Hco _]. cbn [fst] in Hco.
+    apply Forall_cons_iff in HN. destruct HN as [Hc0 HNr].
+    pose proof HNr as HNr'. apply Forall_cons_iff in HNr'. destruct HNr' as [Hl0 HNr2]. cbn [snd] in Hl0.
+    cbn [coalesce]. destruct (Z.eqb_spec (fst cur + snd cur) o) as [E|E].
+    + apply StronglySorted_inv in HSr. destruct HSr as [HSr2 Hjr].
+      destruct (IH (fst cur, snd cur + l)) as (S & F).
+      { constructor; [exact HSr2|]. eapply Forall_impl; [|exact Hjr].
+        intros x Hx. cbn [fst snd] in *. lia. }
+      { apply Forall_cons; [cbn [snd]; lia | exact HNr2]. }
+      split; [exact S | exact F].
+    + destruct (IH (o, l) HSr HNr) as (S & F). split.
+      * constructor; [exact S|]. eapply Forall_impl; [|exact F].
+        intros x Hx. cbn [fst snd] in *. lia.
+      * apply Forall_cons; [lia|]. eapply Forall_impl; [|exact F].
+        intros x Hx. cbn [fst snd] in *. lia.
+Qed.
+
+Lemma coalesce_list_sep : forall b, blocks_sep b -> Forall (fun p => 0 <= snd p) b ->
+  blocks_sep (coalesce_list b).
+Proof.
+  intros [|x r] HS HN; [constructor|]. apply (coalesce_sep_facts r x HS HN).
+Qed.
+
+Lemma io_ok_fst_pairs : forall t, io_ok t -> map fst (io_pairs t) = blocks_bytes (io_f t).
+Proof. intros t (_ & _ & Hl). unfold io_pairs. apply map_fst_zip. exact Hl. Qed.
+
+(* the body of `aggregate` for a non-empty request list, on the annotated requests *)
+Definition aggregate_types (sort_reqs : list areq -> list areq) (sort_segs : list seg -> list seg)
+           (ar : list areq) : iotypes :=
+  let decreasing := has_decreasing ar in
+  let maybe := decreasing || has_overlap_adjacent ar in
+  let ar' := if decreasing then sort_reqs ar else ar in
+  let interleaved := if maybe then has_overlap_adjacent ar' else false in
+  if negb interleaved then mgetput_types ar'
+  else types_of_groups sort_segs (partition_groups ar').
+
+Lemma aggregate_eq : forall sort_reqs sort_segs leads reqs, reqs <> [] ->
+  aggregate sort_reqs sort_segs leads reqs = aggregate_types sort_reqs sort_segs (map (annotate leads) reqs).
+Proof. intros sr ss leads reqs H. destruct reqs as [|r0 rs]; [contradiction | reflexivity]. Qed.
+
+(* ====================================================================== *)
+(* 8. the aggregated type maps address the bytes of the requests           *)
+(* ====================================================================== *)
+Section WithGeometry.
+Hypothesis req_ftype_pairs : forall a, areq_wf a ->
+  zip (blocks_bytes (snd (req_ftype a))) (expand (req_bblock a)) = areq_pairs a.
+Hypothesis vars_flatten_pairs : forall a, areq_wf a -> segs_pairs (vars_flatten a) = areq_pairs a.
+Hypothesis vars_flatten_pos : forall a, areq_wf a -> Forall (fun s => 0 < s_len s) (vars_flatten a).
+
+(* construct_filetypes / construct_buffertypes of a list of requests *)
+Lemma plain_types_facts : forall l, Forall areq_wf l ->
+  blocks_bytes (construct_filetypes (map req_ftype l) None) =
+    flat_map (fun a => blocks_bytes (snd (req_ftype a))) l /\
+  Forall (fun b => 0 <= snd b) (construct_filetypes (map req_ftype l) None) /\
+  blocks_bytes (map req_bblock l) = flat_map (fun a => expand (req_bblock a)) l /\
+  Forall (fun b => 0 <= snd b) (map req_bblock l) /\
+  length (flat_map (fun a => blocks_bytes (snd (req_ftype a))) l) =
+    length (flat_map (fun a => expand (req_bblock a)) l) /\
+  zip (flat_map (fun a => blocks_bytes (snd (req_ftype a))) l)
+      (flat_map (fun a => expand (req_bblock a)) l) = flat_map areq_pairs l.
+Proof.
+  intros l Hwf.
+  assert (Hft : Forall (fun ft : bool * blocks => Forall (fun b => 0 <= snd b) (snd ft)) (map req_ftype l)).
+  { apply Forall_map. eapply Forall_impl; [|exact Hwf]. intros a Ha. apply (req_ftype_facts a Ha). }
+  assert (Hlen : forall a, In a l ->
+            length (blocks_bytes (snd (req_ftype a))) = length (expand (req_bblock a))).
+  { intros a Ha. apply (req_ftype_facts a). apply (proj1 (Forall_forall _ _) Hwf a Ha). }
+  split; [|split; [|split; [|split; [|split]]]].
+  - rewrite construct_filetypes_bytes by (try exact Hft; constructor).
+    cbn [app]. unfold blocks_bytes at 1. cbn [flat_map app]. apply flat_map_map_comm.
+  - apply construct_filetypes_nonneg; [exact Hft | constructor].
+  - unfold blocks_bytes. apply flat_map_map_comm.
+  - apply Forall_map. eapply Forall_impl; [|exact Hwf]. intros a Ha. apply (req_ftype_facts a Ha).
+  - apply length_flat_map_eq. exact Hlen.
+  - rewrite zip_flat_map by exact Hlen. apply flat_map_ext_In.
+    intros a Ha. apply req_ftype_pairs. apply (proj1 (Forall_forall _ _) Hwf a Ha).
+Qed.
+
+Lemma mgetput_pairs : forall l, Forall areq_wf l ->
+  io_ok (mgetput_types l) /\ io_pairs (mgetput_types l) = flat_map areq_pairs l.
+Proof.
+  intros l Hwf. destruct (plain_types_facts l Hwf) as (Ef & Nf & Eb & Nb & Hlen & Hzip).
+  unfold mgetput_types. split; [split; [|split]|]; cbn [io_f io_b].
+  - exact Nf.
+  - apply coalesce_list_nonneg. exact Nb.
+  - rewrite coalesce_list_bytes by exact Nb. rewrite Ef, Eb. exact Hlen.
+  - unfold io_pairs. cbn [io_f io_b]. rewrite coalesce_list_bytes by exact Nb.
+    rewrite Ef, Eb. exact Hzip.
+Qed.
+
+Lemma merge_requests_facts : forall sort_segs l, sorter_ok s_off sort_segs ->
+  Forall areq_wf l -> NoDup (map fst (flat_map areq_pairs l)) ->
+  Forall (fun s => 0 < s_len s) (merge_requests sort_segs l) /\
+  segs_sep (merge_requests sort_segs l) /\
+  Permutation (segs_pairs (merge_requests sort_segs l)) (flat_map areq_pairs l).
+Proof.
+  intros sort_segs l Hsort Hwf Hnd. unfold merge_requests.
+  set (segs0 := flat_map vars_flatten l).
+  assert (Hp0 : segs_pairs segs0 = flat_map areq_pairs l).
+  { unfold segs0, segs_pairs. rewrite flat_map_flat_map. apply flat_map_ext_In.
+    intros a Ha. apply vars_flatten_pairs. apply (proj1 (Forall_forall _ _) Hwf a Ha). }
+  assert (Hpos0 : Forall (fun s => 0 < s_len s) segs0).
+  { unfold segs0. apply Forall_flat_map. eapply Forall_impl; [|exact Hwf].
+    intros a Ha. apply vars_flatten_pos. exact Ha. }
+  set (segs' := if offs_increasing segs0 then segs0 else sort_segs segs0).
+  assert (Hperm : Permutation segs' segs0).
+  { unfold segs'. destruct (offs_increasing segs0); [apply Permutation_refl | apply Hsort]. }
+  assert (Hsorted : StronglySorted (fun a b => s_off a <= s_off b) segs').
+  { unfold segs'. destruct (offs_increasing segs0) eqn:E;
+      [apply offs_increasing_sorted; exact E | apply Hsort]. }
+  assert (Hpos' : Forall (fun s => 0 < s_len s) segs').
+  { eapply perm_Forall; [apply Permutation_sym; exact Hperm | exact Hpos0]. }
+  assert (Hpp : Permutation (segs_pairs segs') (flat_map areq_pairs l)).
+  { rewrite <- Hp0. unfold segs_pairs. apply perm_flat_map. exact Hperm. }
+  assert (Hnd' : NoDup (map fst (segs_pairs segs'))).
+  { eapply Permutation_NoDup; [|exact Hnd]. apply Permutation_map. apply Permutation_sym. exact Hpp. }
+  destruct segs' as [|s r].
+  - split; [constructor|]. split; [constructor | exact Hpp].
+  - split; [|split].
+    + apply merge_segs_pos; assumption.
+    + apply merge_segs_sep; assumption.
+    + rewrite merge_segs_disjoint by assumption. exact Hpp.
+Qed.
+
+Lemma group_types_pairs : forall sort_segs g, sorter_ok s_off sort_segs ->
+  Forall areq_wf (snd g) -> NoDup (map fst (flat_map areq_pairs (snd g))) ->
+  io_ok (group_types sort_segs g) /\
+  Permutation (io_pairs (group_types sort_segs g)) (flat_map areq_pairs (snd g)).
+Proof.
+  intros sort_segs g Hsort Hwf Hnd. unfold group_types. destruct (fst g).
+  - destruct (merge_requests_facts sort_segs (snd g) Hsort Hwf Hnd) as (Hpos & _ & Hperm).
+    destruct (segs_views_pairs _ Hpos) as (Hok & Hpairs).
+    split; [exact Hok|]. rewrite Hpairs. exact Hperm.
+  - destruct (plain_types_facts (snd g) Hwf) as (Ef & Nf & Eb & Nb & Hlen & Hzip).
+    split; [split; [|split]|]; cbn [io_f io_b].
+    + exact Nf.
+    + exact Nb.
+    + rewrite Ef, Eb. exact Hlen.
+    + unfold io_pairs. cbn [io_f io_b]. rewrite Ef, Eb, Hzip. apply Permutation_refl.
+Qed.
+
+Lemma groups_pairs : forall sort_segs gs, sorter_ok s_off sort_segs ->
+  Forall areq_wf (flat_map snd gs) ->
+  NoDup (map fst (flat_map areq_pairs (flat_map snd gs))) ->
+  io_ok (types_of_groups sort_segs gs) /\
+  Permutation (io_pairs (types_of_groups sort_segs gs)) (flat_map areq_pairs (flat_map snd gs)).
+Proof.
+  intros sort_segs gs Hsort Hwf Hnd.
+  assert (Hall : Forall (fun g => io_ok (group_types sort_segs g) /\
+                   Permutation (io_pairs (group_types sort_segs g)) (flat_map areq_pairs (snd g))) gs).
+  { induction gs as [|g gs IH]; [constructor|].
+    cbn [flat_map] in Hwf, Hnd. apply Forall_app in Hwf. destruct Hwf as [Hwg Hwr].
+    rewrite flat_map_app, map_app in Hnd. apply NoDup_app_inv in Hnd. destruct Hnd as (Hng & Hnr & _).
+    constructor; [apply group_types_pairs; assumption | apply IH; assumption]. }
+  unfold types_of_groups. cbv zeta.
+  destruct (io_concat (map (group_types sort_segs) gs)) as (Hok & Hpairs).
+  { apply Forall_map. eapply Forall_impl; [|exact Hall]. intros g Hg. apply Hg. }
+  split; [exact Hok|]. rewrite Hpairs. rewrite flat_map_map_comm, flat_map_flat_map.
+  apply perm_flat_map_pointwise. eapply Forall_impl; [|exact Hall]. intros g Hg. apply Hg.
+Qed.
+
+Theorem groups_stream_correct : forall sort_segs gs file mem, sorter_ok s_off sort_segs ->
+  Forall areq_wf (flat_map snd gs) ->
+  NoDup (map fst (flat_map areq_pairs (flat_map snd gs))) ->
+  disk_eq (mpi_write file mem (types_of_groups sort_segs gs))
+          (write_pairs file mem (flat_map areq_pairs (flat_map snd gs))).
+Proof.
+  intros sort_segs gs file mem Hsort Hwf Hnd.
+  destruct (groups_pairs sort_segs gs Hsort Hwf Hnd) as (Hok & Hperm).
+  eapply disk_eq_trans; [apply mpi_write_pairs_ok; exact Hok|].
+  apply disk_eq_sym. apply write_pairs_perm; [apply Permutation_sym; exact Hperm | exact Hnd].
+Qed.
+
+Theorem groups_stream_correct_read : forall sort_segs gs file mem, sorter_ok s_off sort_segs ->
+  Forall areq_wf (flat_map snd gs) ->
+  NoDup (map fst (flat_map areq_pairs (flat_map snd gs))) ->
+  NoDup (map snd (flat_map areq_pairs (flat_map snd gs))) ->
+  disk_eq (mpi_read file mem (types_of_groups sort_segs gs))
+          (read_pairs file mem (flat_map areq_pairs (flat_map snd gs))).
+Proof.
+  intros sort_segs gs file mem Hsort Hwf Hnd Hnd2.
+  destruct (groups_pairs sort_segs gs Hsort Hwf Hnd) as (Hok & Hperm).
+  eapply disk_eq_trans; [apply mpi_read_pairs_ok; exact Hok|].
+  apply disk_eq_sym. apply read_pairs_perm; [apply Permutation_sym; exact Hperm | exact Hnd2].
+Qed.
+
+Theorem mgetput_stream_correct : forall l file mem, Forall areq_wf l ->
+  disk_eq (mpi_write file mem (mgetput_types l)) (write_pairs file mem (flat_map areq_pairs l)).
+Proof.
+  intros l file mem Hwf. destruct (mgetput_pairs l Hwf) as (Hok & Hpairs).
+  rewrite <- Hpairs. apply mpi_write_pairs_ok. exact Hok.
+Qed.
+
+Theorem mgetput_stream_correct_read : forall l file mem, Forall areq_wf l ->
+  disk_eq (mpi_read file mem (mgetput_types l)) (read_pairs file mem (flat_map areq_pairs l)).
+Proof.
+  intros l file mem Hwf. destruct (mgetput_pairs l Hwf) as (Hok & Hpairs).
+  rewrite <- Hpairs. apply mpi_read_pairs_ok. exact Hok.
+Qed.
+
+(* ====================================================================== *)
+(* 9./10. wait_getput up to the MPI call                                   *)
+(* ====================================================================== *)
+Lemma aggregate_types_pairs : forall sort_reqs sort_segs ar,
+  sorter_ok a_start sort_reqs -> sorter_ok s_off sort_segs ->
+  Forall areq_wf ar -> NoDup (map fst (flat_map areq_pairs ar)) ->
+  io_ok (aggregate_types sort_reqs sort_segs ar) /\
+  Permutation (io_pairs (aggregate_types sort_reqs sort_segs ar)) (flat_map areq_pairs ar).
+Proof.
+  intros sort_reqs sort_segs ar Hsr Hss Hwf Hnd. unfold aggregate_types. cbv zeta.
+  set (ar' := if has_decreasing ar then sort_reqs ar else ar).
+  assert (Hperm : Permutation ar' ar).
+  { unfold ar'. destruct (has_decreasing ar); [apply Hsr | apply Permutation_refl]. }
+  assert (Hwf' : Forall areq_wf ar').
+  { eapply perm_Forall; [apply Permutation_sym; exact Hperm | exact Hwf]. }
+  assert (Hpp : Permutation (flat_map areq_pairs ar') (flat_map areq_pairs ar)).
+  { apply perm_flat_map. exact Hperm. }
+  assert (Hnd' : NoDup (map fst (flat_map areq_pairs ar'))).
+  { eapply Permutation_NoDup; [|exact Hnd]. apply Permutation_map. apply Permutation_sym. exact Hpp. }
+  destruct (negb (if has_decreasing ar || has_overlap_adjacent ar then has_overlap_adjacent ar' else false)).
+  - destruct (mgetput_pairs ar' Hwf') as (Hok & Hpairs).
+    split; [exact Hok|]. rewrite Hpairs. exact Hpp.
+  - pose proof (partition_groups_concat ar') as Hcat.
+    destruct (groups_pairs sort_segs (partition_groups ar') Hss) as (Hok & Hpairs).
+    + rewrite Hcat. exact Hwf'.
+    + rewrite Hcat. exact Hnd'.
+    + split; [exact Hok|]. rewrite Hcat in Hpairs.
+      eapply perm_trans; [exact Hpairs | exact Hpp].
+Qed.
+
+Lemma aggregate_pairs : forall sort_reqs sort_segs leads reqs,
+  sorter_ok a_start sort_reqs -> sorter_ok s_off sort_segs ->
+  Forall areq_wf (map (annotate leads) reqs) ->
+  NoDup (map fst (flat_map areq_pairs (map (annotate leads) reqs))) ->
+  io_ok (aggregate sort_reqs sort_segs leads reqs) /\
+  Permutation (io_pairs (aggregate sort_reqs sort_segs leads reqs))
+              (flat_map areq_pairs (map (annotate leads) reqs)).
+Proof.
+  intros sort_reqs sort_segs leads reqs Hsr Hss Hwf Hnd.
+  destruct reqs as [|r0 rs].
+  - cbn [aggregate map flat_map]. split; [|apply perm_nil].
+    split; [constructor|]. split; [constructor | reflexivity].
+  - rewrite aggregate_eq by discriminate. apply aggregate_types_pairs; assumption.
+Qed.
+
+Theorem commit_stream_correct : forall sort_reqs sort_segs leads reqs file mem,
+  sorter_ok a_start sort_reqs -> sorter_ok s_off sort_segs ->
+  Forall areq_wf (map (annotate leads) reqs) ->
+  NoDup (map fst (flat_map areq_pairs (map (annotate leads) reqs))) ->
+  disk_eq (mpi_write file mem (aggregate sort_reqs sort_segs leads reqs))
+          (write_pairs file mem (flat_map areq_pairs (map (annotate leads) reqs))).
+Proof.
+  intros sort_reqs sort_segs leads reqs file mem Hsr Hss Hwf Hnd.
+  destruct (aggregate_pairs sort_reqs sort_segs leads reqs Hsr Hss Hwf Hnd) as (Hok & Hperm).
+  eapply disk_eq_trans; [apply mpi_write_pairs_ok; exact Hok|].
+  apply disk_eq_sym. apply write_pairs_perm; [apply Permutation_sym; exact Hperm | exact Hnd].
+Qed.
+
+Theorem commit_stream_correct_read : forall sort_reqs sort_segs leads reqs file mem,
+  sorter_ok a_start sort_reqs -> sorter_ok s_off sort_segs ->
+  Forall areq_wf (map (annotate leads) reqs) ->
+  NoDup (map fst (flat_map areq_pairs (map (annotate leads) reqs))) ->
+  NoDup (map snd (flat_map areq_pairs (map (annotate leads) reqs))) ->
+  disk_eq (mpi_read file mem (aggregate sort_reqs sort_segs leads reqs))
+          (read_pairs file mem (flat_map areq_pairs (map (annotate leads) reqs))).
+Proof.
+  intros sort_reqs sort_segs leads reqs file mem Hsr Hss Hwf Hnd Hnd2.
+  destruct (aggregate_pairs sort_reqs sort_segs leads reqs Hsr Hss Hwf Hnd) as (Hok & Hperm).
+  eapply disk_eq_trans; [apply mpi_read_pairs_ok; exact Hok|].
+  apply disk_eq_sym. apply read_pairs_perm; [apply Permutation_sym; exact Hperm | exact Hnd2].
+Qed.
+
+(* the file view of an interleaved group is monotone: increasing, non-overlapping blocks *)
+Theorem merge_requests_view_monotone : forall sort_segs l, sorter_ok s_off sort_segs ->
+  Forall areq_wf l -> NoDup (map fst (flat_map areq_pairs l)) ->
+  blocks_sep (segs_fview (merge_requests sort_segs l)).
+Proof.
+  intros sort_segs l Hsort Hwf Hnd.
+  destruct (merge_requests_facts sort_segs l Hsort Hwf Hnd) as (Hpos & Hsep & _).
+  unfold segs_fview. apply coalesce_list_sep; [apply segs_sep_blocks; exact Hsep|].
+  apply Forall_map. eapply Forall_impl; [|exact Hpos]. intros s Hs. cbv beta in Hs. cbn [snd]. lia.
+Qed.
+
+(* the file view of the whole wait never addresses a file byte twice *)
+Theorem commit_view_no_overlap : forall sort_reqs sort_segs leads reqs,
+  sorter_ok a_start sort_reqs -> sorter_ok s_off sort_segs ->
+  Forall areq_wf (map (annotate leads) reqs) ->
+  NoDup (map fst (flat_map areq_pairs (map (annotate leads) reqs))) ->
+  NoDup (blocks_bytes (io_f (aggregate sort_reqs sort_segs leads reqs))) /\
+  Forall (fun b => 0 <= snd b) (io_f (aggregate sort_reqs sort_segs leads reqs)) /\
+  Permutation (blocks_bytes (io_f (aggregate sort_reqs sort_segs leads reqs)))
+              (map fst (flat_map areq_pairs (map (annotate leads) reqs))).
+Proof.
+  intros sort_reqs sort_segs leads reqs Hsr Hss Hwf Hnd.
+  destruct (aggregate_pairs sort_reqs sort_segs leads reqs Hsr Hss Hwf Hnd) as (Hok & Hperm).
+  rewrite <- (io_ok_fst_pairs _ Hok).
+  assert (HP : Permutation (map fst (io_pairs (aggregate sort_reqs sort_segs leads reqs)))
+                           (map fst (flat_map areq_pairs (map (annotate leads) reqs))))
+    by (apply Permutation_map; exact Hperm).
+  split; [|split].
+  - eapply Permutation_NoDup; [apply Permutation_sym; exact HP | exact Hnd].
+  - apply Hok.
+  - exact HP.
+Qed.
+
+End WithGeometry.
+
+(* ====================================================================== *)
+(* 11. the concrete insertion sort is a sorter; examples; file-view facts  *)
+(* ====================================================================== *)
+Lemma insert_by_perm : forall A (key : A -> Z) x l, Permutation (insert_by key x l) (x :: l).
+Proof.
+  intros A key x l. induction l as [|a l IH]; cbn [insert_by].
+  - apply Permutation_refl.
+  - destruct (key x <=? key a); [apply Permutation_refl|].
+    eapply perm_trans; [apply perm_skip; exact IH | apply perm_swap].
+Qed.
+
+Lemma insert_by_sorted : forall A (key : A -> Z) x l,
+  StronglySorted (fun a b => key a <= key b) l ->
+  StronglySorted (fun a b => key a <= key b) (insert_by key x l).
+Proof.
+  intros A key x l. induction l as [|a l IH]; intros HS; cbn [insert_by].
+  - constructor; constructor.
+  - apply StronglySorted_inv in HS. destruct HS as [HS1 HS2].
+    destruct (Z.leb_spec (key x) (key a)) as [L|L].
+    + constructor; [constructor; assumption|].
+      apply Forall_cons; [exact L|]. eapply Forall_impl; [|exact HS2].
+      intros b Hb. cbv beta in Hb. lia.
+    + constructor; [apply IH; exact HS1|].
+      eapply perm_Forall; [apply Permutation_sym; apply insert_by_perm|].
+      apply Forall_cons; [lia | exact HS2].
+Qed.
+
+Theorem isort_sorter_ok : forall A (key : A -> Z), sorter_ok key (isort key).
+Proof.
+  intros A key l. unfold isort. induction l as [|x l [IHp IHs]]; cbn [fold_right].
+  - split; [apply perm_nil | constructor].
+  - split.
+    + eapply perm_trans; [apply insert_by_perm | apply perm_skip; exact IHp].
+    + apply insert_by_sorted. exact IHs.
+Qed.
+
+Lemma areq_wf_annotate : forall leads r,
+  areq_wf (mkareq r (znth leads (r_lead_off r) dummy_lead) 0 0) -> areq_wf (annotate leads r).
+Proof.
+  intros leads r H. unfold areq_wf in *. cbv zeta in *.
+  rewrite annotate_req, annotate_lead. cbn [a_req a_lead] in H. exact H.
+Qed.
+
+Lemma NoDup_by_nodup : forall l : list Z, nodup Z.eq_dec l = l -> NoDup l.
+Proof. intros l H. rewrite <- H. apply NoDup_nodup. Qed.
+
+(* Example for commit_stream_correct / commit_stream_correct_read: a 4x5 fixed-size variable of
+   4-byte elements at offset 1024; three pending requests posted out of order (the sort runs), two
+   of them interleaved in the file (one interleaved group, where two segments coalesce on the file
+   side only, followed by a non-interleaved group). *)
+Example commit_stream_correct_ex :
+  let g := mkgeom 1024 4 [4; 5] 0 0 in
+  let ld := mklead 0 g None 0 3 (-1) false false (-1) 5000 10 None 0 [] in
+  let reqs := [mkreq 0 [3; 0] [1; 5] 5 5020; mkreq 0 [0; 1] [2; 2] 4 5000; mkreq 0 [1; 0] [1; 1] 1 5016] in
+  sorter_ok a_start isort_reqs /\ sorter_ok s_off isort_segs /\
+  Forall areq_wf (map (annotate [ld]) reqs) /\
+  NoDup (map fst (flat_map areq_pairs (map (annotate [ld]) reqs))) /\
+  NoDup (map snd (flat_map areq_pairs (map (annotate [ld]) reqs))) /\
+  aggregate isort_reqs isort_segs [ld] reqs =
+    mkio [(1028, 8); (1044, 12); (1084, 20)] [(5000, 8); (5016, 4); (5008, 8); (5020, 20)].
+Proof.
+  cbv zeta. split; [apply isort_sorter_ok|]. split; [apply isort_sorter_ok|].
+  split; [|split; [|split]].
+  - cbn [map].
+    repeat (apply Forall_cons;
+            [apply areq_wf_annotate;
+             unfold areq_wf, wf_geom, rec_fits, rec_packed, dims_wf, req_stride, req_ok, dims_ok, g_isrec;
+             cbn [a_req a_lead l_geom l_stride r_lead_off r_start r_count r_nelems znth Z.eqb
+                  g_xsz g_recsize g_shape g_nrecvars ones_like map hd tl zprod length];
+             repeat split; try lia; try discriminate; try (repeat constructor; lia)|]).
+    apply Forall_nil.
+  - apply NoDup_by_nodup. vm_compute. reflexivity.
+  - apply NoDup_by_nodup. vm_compute. reflexivity.
+  - vm_compute. reflexivity.
+Qed.
